@@ -61,4 +61,28 @@ CHECKS = {
         "note": "Trusted: h5py/HDF5. Field contents come from a six-member alphabet placed at the first/last element; IO is a byte copy, so content position is not explored further.",
         "technique": "deviation-bounded product lattice of registry configurations driven through the real save/load path with a byte-equality oracle",
     },
+    "C06": {
+        "text": "Exhaustive within bounds: the per-axis sub-cell offset alphabet (cell centre, +-1 and +-4 ulp, quarter, face -+1 ulp, three-quarter, next centre -1 ulp) is crossed over ALL axes and over base cells near both boundaries and mid-domain, for both kernels, both precisions, three spacings, 2-D and 3-D, and every resulting marker position is pushed through the real numba support / weights / interpolation closures; the oracle evaluates the delta functions in longdouble at exact rational distances. Includes thousands of positions where the floor index slips by one.",
+        "design_ref": "DESIGN.md section 5 C06, section 4.1",
+        "note": "Trusted: numba as compiler of the closures (fastmath); tolerances 4 eps (4 + |x|/dx) relative to (1/dx)^d. Marker positions outside the offset alphabet are not explored; the weights are smooth functions of the offset between alphabet members.",
+        "technique": "full cross-product lattice of sub-cell offsets x base cells on the real closures against a longdouble/rational reference",
+    },
+    "C07": {
+        "text": "Exhaustive within bounds: for each enumerated marker set (spread out, mixed: same cell / identical / pairwise overlapping / diagonal neighbours, all in one cell, all identical) the full interpolation matrix (unit impulse in every cell and component of the union of supports) and the full spreading matrix (unit force per marker and component) are collected from the real closures and compared entry by entry (S dx^d = I^T), with force and (Peskin) torque conservation per column; a BFS over spreading histories checks exact accumulation. Both maps are linear, so the impulse bases decide them for each marker set.",
+        "design_ref": "DESIGN.md section 5 C07, sections 4.2 and 4.3",
+        "note": "Trusted: numba; marker sets are a finite alphabet (batch of 8 markers).",
+        "technique": "basis enumeration of interpolation and spreading matrices on the real closures + explicit-state BFS over spreading histories",
+    },
+    "C08": {
+        "text": "Exhaustive within bounds: lattice over forcing-grid type (4 rigid, 7 rod variants) x body parameters (element count, taper, bend, surface density, caps) x pose alphabet (24 cube rotations + 3 generic, off-origin) and, per case, the complete basis of unit marker forces (every marker x component): net force, net moment about two points (rigid bodies and off-node rod grids) and power balance (rigid bodies, 6 unit body velocities). The transfer is linear in the marker forces, so the basis decides it per pose. The full ImmersedBodyFlowInteraction / FlowForces path is driven on a real velocity field for eight body kinds.",
+        "design_ref": "DESIGN.md section 5 C08, sections 4.1 and 4.2",
+        "note": "Trusted: PyElastica containers; poses from a finite alphabet (rotations act linearly, generic rotations included).",
+        "technique": "product lattice of grids x poses with basis enumeration over unit marker forces on the real forcing-grid objects",
+    },
+    "C09": {
+        "text": "Exhaustive within bounds: lattice over forcing grids x body parameters x poses and the complete basis of body velocities (6 unit (V, Omega) for rigid bodies; every node x component and every element x material-frame angular component for rods) against V + Omega_lab x r; body-fixed rigid grids additionally advance the pose with PyElastica's own kinematic update at two step sizes and require second-order agreement (error ratio 3..5); marker offsets are checked against radius x cap ratio. Marker velocity is linear in the body velocities, so the basis decides it per pose.",
+        "design_ref": "DESIGN.md section 5 C09, sections 4.1 and 4.2",
+        "note": "Trusted: PyElastica's kinematic update as the definition of 'advancing the pose'.",
+        "technique": "product lattice of grids x poses with basis enumeration over unit body velocities on the real forcing-grid objects",
+    },
 }
